@@ -94,6 +94,7 @@ static std::string prog_str(const Program& p) {
 }
 static int created_slot(const Program& p, int t, int j) {  // model slot of the expectation created by op j of thread t
   int k = S_FIRST_CREATED;
+  static_assert(S_FIRST_CREATED + 6 <= NSLOT, "every operation of the largest program shape (2x3, 3x2) needs a slot of its own");
   for (int a = 0; a < p.nt; ++a) for (int b = 0; b < p.nops[a]; ++b) { if (a == t && b == j) return k; ++k; }
   return -1;
 }
